@@ -1420,7 +1420,9 @@ void CheckCondition::checkModuloAlwaysTrueFalse()
                 continue;
             }
 
+            // the result of "x % N" is less than N for a positive N only
             if (Token::Match(modulo->astOperand2(), "%num%") &&
+                !MathLib::isNegative(modulo->astOperand2()->str()) &&
                 MathLib::isLessEqual(modulo->astOperand2()->str(), num->str()))
                 moduloAlwaysTrueFalseError(tok, modulo->astOperand2()->str());
         }
